@@ -80,6 +80,8 @@ def run_small(key):
     y = A.generic_data(seed, lead + (N, D), 'c04s', model, D, complex_=cplx)
     if model in M.INTEGRATION:
         emb = A.generic_data(seed, lead + (N, 3), 'c04s-emb', model, complex_=False)
+        if key.get('emb32'):
+            emb = emb.astype(np.float32)     # mixed precision: double observation, single embedding
         data = (y, emb)
     else:
         data = y
@@ -99,6 +101,20 @@ def run_small(key):
     bad = compare_models(model, m1, m2, data, data2, lead + (K, N), rt)
     if bad and bad.startswith('TRIVIAL'):
         return trivial(bad[9:])
+    if bad:
+        return viol(bad + f' (gains {gains.tolist()})')
+    # the fit_predict entry point
+    try:
+        tr = M.trainer(model)
+        if model in M.INTEGRATION:
+            p1 = tr.fit_predict(data[0], data[1], initialization=init, iterations=its)
+            p2 = M.trainer(model).fit_predict(data2[0], data2[1], initialization=init, iterations=its)
+        else:
+            p1 = tr.fit_predict(data, initialization=init, iterations=its)
+            p2 = M.trainer(model).fit_predict(data2, initialization=init, iterations=its)
+    except Exception as e:  # noqa
+        return viol(f'{model}: fit_predict raised {e!r} (gains {gains.tolist()})')
+    bad = tol.mismatch(p2, p1, rt * 10, what=f'{model} fit_predict(c*y) vs fit_predict(y)')
     if bad:
         return viol(bad + f' (gains {gains.tolist()})')
     return ok(outcome=tol.digest(M.fields(model, m1)[sorted(M.fields(model, m1))[0]]), evals=2)
@@ -218,8 +234,10 @@ def subchecks(tier, seed):
                             if model == 'cbmm' and (D == 3 or (its == 3 and not thorough)
                                                     or (not thorough and sum(g) % 3)):
                                 continue
-                            yield (model, D, g, its, stream, seed)
-    subs.append(Sub('gain_fields_n4', ('model', 'D', 'gains', 'its', 'stream', 'seed'), small_cases,
+                            yield (model, D, g, its, stream, False, seed)
+                            if model in M.INTEGRATION and stream == 'spatial' and (thorough or sum(g) % 2 == 0):
+                                yield (model, D, g, its, stream, True, seed)
+    subs.append(Sub('gain_fields_n4', ('model', 'D', 'gains', 'its', 'stream', 'emb32', 'seed'), small_cases,
                     run_small, bound=dict(gains='all assignments of 7 gains to 4 frames' +
                                           ('' if thorough else ' up to frame order'), N=4, K=2),
                     exhaustive=thorough))
